@@ -465,6 +465,13 @@ def depth1(leaves, p, f) -> List[Any]:
     out.append(("minlen", p, ("vtuple", ("int",))))
     out.append(("maxlen", p, ("vtuple", ("int",))))
     out.append(("minlen", p, ("str",)))
+    # Annotated wrappers around structural types (assignability must look through the wrapper before it compares
+    # members / keys, not fall back to the erased generic)
+    out.append(("minlen", p, ("tuple", ("int",), ("int",))))
+    out.append(("minlen", p, ("tuple", ("int",), ("str",))))
+    out.append(("minlen", p, ("td", f, False, ("int",))))
+    out.append(("minlen", p, ("list", ("int",))))
+    out.append(("minlen", p, ("dict", ("str",), ("int",))))
     out.append(("mult", 3))
     out.append(("union", ("gt", p), ("lit", 0)))
     # dedupe, keep order
@@ -638,6 +645,14 @@ PINNED_PAIRS = {
     ("mapping[str,lit[$p0]]", "td[$f1,False,lit[$p1]]"),
     ("dict[str,int]", "td[$f1,False,int]"),
     ("mapping[str,int]", "td2[int,str,$f1]"),
+    ("tuple[int,str]", "minlen[$p1,tuple[int,int]]"),
+    ("tuple[int,str]", "minlen[$p1,tuple[int,str]]"),
+    ("tuple[int,int]", "minlen[$p1,tuple[int,str]]"),
+    ("tuple[int]", "minlen[$p1,tuple[int,int]]"),
+    ("td2[int,str,$f0]", "minlen[$p1,td[$f1,False,int]]"),
+    ("td[$f0,True,int]", "minlen[$p1,td[$f1,False,int]]"),
+    ("list[int]", "minlen[$p1,list[int]]"),
+    ("list[bool]", "minlen[$p1,list[int]]"),
 }
 
 
